@@ -80,7 +80,7 @@ fn nontrivial(p: &Prog) -> bool {
 /// keep only the fields that do not depend on floating point results (Miri perturbs the last
 /// bit of libm results on purpose, so floats cannot be compared with a native run)
 fn integer_fields(l: &str) -> String {
-  l.split(' ').filter(|w| !(w.starts_with("addr=") || w.starts_with("centre=") || w.starts_with("c2v=") || w.starts_with("digest=") || w.starts_with("cone_entries="))).collect::<Vec<_>>().join(" ")
+  l.split(' ').filter(|w| !(w.starts_with("addr=") || w.starts_with("centre=") || w.starts_with("c2v=") || w.starts_with("digest=") || w.starts_with("cone_entries=") || w.starts_with("ell_entries="))).collect::<Vec<_>>().join(" ")
 }
 
 fn judge(p: &Prog, par: &RunOut, seq: &RunOut, how: &str) -> Result<(), Violation> {
@@ -223,9 +223,9 @@ fn strat(max_threads: usize, max_ops: usize, deep: bool) -> impl Fn() -> BoxedSt
     let hot_max = if deep { 29u8 } else { 6u8 };
     (0u8..=hot_max, 2usize..=max_threads, any::<u32>())
       .prop_flat_map(move |(hot, nt, seed)| {
-        let op = (prop::sample::select(vec!["L", "L", "C", "C", "K", "S"]), prop_oneof![7 => Just(hot), 3 => 0u8..=hot_max]).prop_map(move |(k, d)| {
+        let op = (prop::sample::select(vec!["L", "L", "L", "C", "C", "C", "K", "S", "E"]), prop_oneof![7 => Just(hot), 3 => 0u8..=hot_max]).prop_map(move |(k, d)| {
           // cones only at small depths (cost under Miri, and they touch depths 0..=d); small cones up to depth 25 (+4)
-          let d = if k == "K" { d.min(if deep { 8 } else { 3 }) } else if k == "S" { d.min(if deep { 25 } else { 3 }) } else { d };
+          let d = if k == "K" { d.min(if deep { 8 } else { 3 }) } else if k == "S" { d.min(if deep { 25 } else { 3 }) } else if k == "E" { d.min(if deep { 20 } else { 3 }) } else { d };
           format!("{}{}", k, d)
         });
         let thread = (prop::sample::select(vec![0u64, 0, 0, 10, 100, 1000, 5000]), prop::collection::vec(op, 1..=max_ops));
